@@ -5,6 +5,8 @@ mod util;
 #[path = "gen.rs"]
 mod r#gen;
 mod c10;
+mod c11;
+mod c14;
 
 use util::Args;
 
@@ -18,6 +20,9 @@ fn main() {
     util::quiet_panics();
     match argv[1].as_str() {
         "c10" => c10::run(&args),
+        "c11" => c11::run(&args),
+        "c14" => c14::run(&args),
+        "c14ref" => c14::run_ref(&args),
         other => {
             eprintln!("unknown check {other}");
             std::process::exit(2);
